@@ -15,8 +15,23 @@ func init() {
 			w := []int{80, 40, 20}[r.Intn(3)]
 			typed := randCells(r, "ascii", 1+r.Intn(2*w))
 			at := 1 + r.Intn(len(typed))
-			kind := []string{"printf", "transient"}[r.Intn(2)]
+			kind := []string{"printf", "transient", "resize", "resize"}[r.Intn(4)]
 			text := []string{"async message", "two\nlines", strings.Repeat("w", w+3)}[r.Intn(3)]
+			w2 := w
+			if kind == "resize" {
+				// the terminal changes width while the user is typing a line that fits on one row at both widths
+				// (what a terminal does to wrapped rows when it is resized is its own business)
+				w2 = []int{80, 40, 20, 33, 61}[r.Intn(5)]
+				for w2 == w {
+					w2 = []int{80, 40, 20, 33, 61}[r.Intn(5)]
+				}
+				typed = randCells(r, "ascii", 1+r.Intn(min(w, w2)-4))
+				at = 1 + r.Intn(len(typed))
+				text = fmt.Sprint(w2)
+				if r.Intn(3) == 0 {
+					text = "burst:" + text
+				}
+			}
 			sp := Spec{Prompt: "> ", Mode: "emacs", Runs: 1, Width: w, Height: 24, Patience: 5, Async: []Async{{At: at, Kind: kind, Text: text}}}
 			var keys []string
 			for _, c := range typed {
@@ -24,7 +39,7 @@ func init() {
 			}
 			keys = append(keys, "\r")
 			sp.Chunks = hexChunks(keys)
-			return Case{Specs: []Spec{sp}, Class: kind + fmt.Sprintf("/w=%d", w), Meta: map[string]string{"typed": typed, "at": fmt.Sprint(at), "kind": kind, "text": text}}
+			return Case{Specs: []Spec{sp}, Class: kind + fmt.Sprintf("/w=%d", w), Meta: map[string]string{"typed": typed, "at": fmt.Sprint(at), "kind": kind, "text": text, "w2": fmt.Sprint(w2)}}
 		},
 		oracle: func(c Case, trs []Trace) []Finding {
 			tr := trs[0]
@@ -49,6 +64,7 @@ func init() {
 			if at < len(tr.Waits) {
 				wt := tr.Waits[at]
 				sp := c.Specs[0]
+				fmt.Sscan(c.Meta["w2"], &sp.Width)
 				wantScreen, wantCur := reference(sp.Width, sp.Height, sp.Prompt, []rune(wt.Line), wt.Pos)
 				screen := wt.VTE
 				for len(screen) > 0 && strings.TrimRight(screen[len(screen)-1], " ") == "" {
@@ -68,7 +84,7 @@ func init() {
 				}
 				if !okArea {
 					fs = append(fs, Finding{"C20", "redisplay-wrong/" + c.Meta["kind"], fmt.Sprintf("after the print: cursor %v (want column %d), screen %q, want area %q", wt.CurVTE, wantCur[1], screen, wantScreen), c})
-				} else if !msgSeen {
+				} else if !msgSeen && c.Meta["kind"] != "resize" {
 					fs = append(fs, Finding{"C20", "message-lost/" + c.Meta["kind"], fmt.Sprintf("message %q not above the input area: %q", c.Meta["text"], screen), c})
 				}
 			}
